@@ -212,12 +212,29 @@ def rounding(rep, prog):
     rep.ob('R13.round', 'translator:terminal-labels', okt, 'terminals of every symbol are labelled through _get_node_index(get_nodes(element))', prog.site(tm, tc) if tc is not None else '')
     # wires: exactly Line (not subclasses) carry connectivity
     le = next((x for x in cls.body if isinstance(x, ast.FunctionDef) and x.name == 'line_elements'), None)
-    okw = le is not None and 'type(e) is elm.Line' in ast.unparse(le)
+    okw = False
+    if le is not None:
+        for cpn in ast.walk(le):
+            if isinstance(cpn, ast.comprehension) and isinstance(cpn.target, ast.Name):
+                for f_ in cpn.ifs:
+                    if (isinstance(f_, ast.Compare) and isinstance(f_.ops[0], ast.Is) and isinstance(f_.left, ast.Call) and ast.unparse(f_.left.func) == 'type'
+                            and ast.unparse(f_.left.args[0]) == cpn.target.id and ast.unparse(f_.comparators[0]).split('.')[-1] == 'Line'): okw = True
     rep.ob('R13.round', 'wires', okw, 'wires are exactly the elements of type Line', prog.site(pm, le or cls))
     # closure: fixpoint loop over wires adds both directions
     cl = next((x for x in cls.body if isinstance(x, ast.FunctionDef) and x.name == '_get_equal_electrical_potential_nodes'), None)
-    srcc = ast.unparse(cl) if cl is not None else ''
-    okc = 'while' in srcc and '.add(n2)' in srcc and '.add(n1)' in srcc and 'n1 in' in srcc and 'n2 in' in srcc
+    okc = False
+    if cl is not None:
+        has_while = any(isinstance(n, ast.While) for n in ast.walk(cl))
+        pair = None
+        for n in ast.walk(cl):
+            if isinstance(n, ast.Assign) and isinstance(n.targets[0], ast.Tuple) and len(n.targets[0].elts) == 2 and isinstance(n.value, ast.Call) and ast.unparse(n.value.func).split('.')[-1] == 'get_nodes':
+                pair = tuple(e.id for e in n.targets[0].elts if isinstance(e, ast.Name))
+        dirs = set()
+        for n in ast.walk(cl):
+            if isinstance(n, ast.If) and isinstance(n.test, ast.Compare) and isinstance(n.test.ops[0], ast.In) and isinstance(n.test.left, ast.Name):
+                adds = [ast.unparse(c_.args[0]) for c_ in ast.walk(ast.Module(body=n.body, type_ignores=[])) if isinstance(c_, ast.Call) and isinstance(c_.func, ast.Attribute) and c_.func.attr == 'add' and c_.args]
+                for a_ in adds: dirs.add((n.test.left.id, a_))
+        okc = bool(has_while and pair and len(pair) == 2 and (pair[0], pair[1]) in dirs and (pair[1], pair[0]) in dirs)
     rep.ob('R13.round', 'closure', okc, 'equipotential closure iterates to a fixpoint and follows wires in both directions', prog.site(pm, cl or cls))
 
 
